@@ -86,7 +86,7 @@ def tykind_values(facts):
 
 
 def check_table(ck, facts, R, body, spec, what):
-    ms = enum_matches(body.thir, TYKIND)
+    ms = enum_matches(facts.thir(body.key), TYKIND)
     if len(ms) != 1:
         ck.violation(R, "%s:match" % what, body.where(), "expected exactly one match on TyKind, found %d" % len(ms))
         return 0
@@ -132,7 +132,8 @@ def kind_match_decides(ck, R, body, what, allowed_first=()):
     """K3 (on THIR): the outcome for a type is decided by the TyKind table alone: every `return` / `?` of the function sits inside an
     arm of the match on TyKind (no early exit in front of the table that would switch the structural rule off - e.g. because the
     program has *some* explicit impl for the same type constructor, or a flag of the trait)."""
-    ms = enum_matches(body.thir, TYKIND)
+    bth = body.facts.thir(body.key)
+    ms = enum_matches(bth, TYKIND)
     inst = "%s:table-decides" % what
     if len(ms) != 1:
         ck.violation(R, inst + ":missing-anchor", body.where(), "expected exactly one match on TyKind")
@@ -142,7 +143,7 @@ def kind_match_decides(ck, R, body, what, allowed_first=()):
         for n in walk(arm["body"], skip_tracing=False):
             inside.add(id(n))
     from kit import user_block
-    stray = [n for n in walk(user_block(body.thir)) if n.get("k") == "return" and id(n) not in inside]
+    stray = [n for n in walk(user_block(bth)) if n.get("k") == "return" and id(n) not in inside]
     if stray:
         ck.violation(R, inst, body.where(stray[0].get("ln")), "the function can return before / outside the TyKind table: the built-in "
                      "rule can be bypassed for every type at once")
@@ -166,7 +167,7 @@ def run(ck, facts, tier):
         ck.floor(R, "cells", n, 30)
         kind_match_decides(ck, R, cp, "copy")
         # Array arm: the condition is on the element type bound by the pattern; Closure arm: on the upvars
-        m = enum_matches(cp.thir, TYKIND)
+        m = enum_matches(facts.thir(cp.key), TYKIND)
         if m:
             arm = m[0]["arms"][select_arms(m[0], V("Array"))[0][0]]
             binds = [sp for idx, name, sp in arm["pat"].get("sub", []) if idx == 0]
@@ -260,7 +261,7 @@ def run(ck, facts, tier):
     tp = need_body(ck, facts, R, BT + "tuple::add_tuple_program_clauses")
     if tp:
         kind_match_decides(ck, R, tp, "tuple")
-        ms = enum_matches(tp.thir, TYKIND)
+        ms = enum_matches(facts.thir(tp.key), TYKIND)
         if len(ms) != 1:
             ck.violation(R, "tuple:match", tp.where(), "expected one match on TyKind")
         else:
